@@ -111,9 +111,9 @@ CHECKS = {
              "are recorded from the real code; TLC compares each with SetOf/IdOf finite-set semantics and the textbook definitions.",
         note="transcription of pure functions into TLA+ with TLC as oracle; exhaustive for the stated n"),
     "C19": dict(
-        level="model_checking", design="§5 C19", technique="TLC on MC_ResultsFile (all save sequences) + trace validation of real save_json/save/command runs with complete read-back after every call (Trace_Save)",
+        level="model_checking", design="§5 C19", technique="TLC on MC_ResultsFile (all save sequences) + Apalache inductive argument over the same Save operator for unbounded histories (Apa_ResultsFile) + trace validation of real save_json/save/command runs with complete read-back after every call (Trace_Save)",
         text="TLC explores all sequences of up to 5 saves over 3 names x 4 entries and checks that earlier entries never change, a repeated name is a no-op and a new name adds exactly "
-             "its entry; sequences of real saves (new and repeated names, odd names, matrices of random 2-D/3-D shapes with NaN, -0.0, subnormal, huge and infinite values, metadata with "
+             "its entry; Apalache proves base and inductive step of "never overwritten" over the same operators for any number of saves (and must fail on a mutated Save); sequences of real saves (new and repeated names, odd names, matrices of random 2-D/3-D shapes with NaN, -0.0, subnormal, huge and infinite values, metadata with "
              "Path, dates, numpy scalars, functions) are executed and after EVERY call data.json is read back through Output.from_file / get_outputs_from_file and compared by TLC with "
              "Save(previous file, name, entry) on float bit-pattern tokens; solve / greedy / best_states are run in-process and the saved matrices must be the ones the evaluation or search produced.",
         note="floats as bit-pattern tokens; metadata oracle stated in the driver; save() exercised with finite gaps and at least one revealed coalition"),
@@ -130,7 +130,7 @@ CHECKS = {
         text="TLC checks on the pool model that the enumeration is exactly the set of reveal sets of size <= k without duplicates, that the chunks partition the task list, and that for every "
              "number of workers, chunking and schedule each set is evaluated exactly once with the gap of (starting knowledge + set); the real get_exploitabilities_of_action_sequences is run with "
              "1..4 (quick) / 1..16 (thorough) processes on exact games with random starting knowledge, size limits, all gaps and computers: TLC demands every reveal set exactly once, each "
-             "reported gap = gap of exactly that knowledge (certified integer numerators), bit-identical results across process counts; MetaGame.get_value returns the same quantity; "
+             "reported gap = gap of exactly that knowledge (certified integer numerators), bit-identical results across process counts; MetaGame.get_value returns the same quantity; the sampling and stacked forms report, per sampled/given game, the gap of exactly that knowledge; "
              "best-states rows are the per-game gaps of a set of that size attaining the minimum mean, with a non-increasing curve for in-class games.",
         note="real pool schedules are not controllable (covered on the model); n=3,4"),
     "C12": dict(
